@@ -179,9 +179,15 @@ def fresh(kind, name, st, newref, origin='fresh', record=None):
             return newref(st, ListV(items, origin))
         n = z3.Int(name + '.n')
         st.assume(n >= 0)
+        if isinstance(kind.elem, KTup):
+            fs = [z3.Function('%s.%d' % (name, k), z3.IntSort(), z3sort(ek)) for k, ek in enumerate(kind.elem.items)]
+            if record is not None:
+                record[name] = ('symlist-of-tuples', fs, n, kind)
+            return newref(st, SymListV(n, lambda i, fs=fs: tuple(f(to_z3(i)) for f in fs), 'tuple', origin))
         sort = z3sort(kind.elem)
         f = z3.Function(name, z3.IntSort(), sort)
         if record is not None:
             record[name] = ('symlist', f, n, kind)
-        return newref(st, SymListV(n, lambda i, f=f: f(to_z3(i)), 'obj', origin))
+        el = {'KReal': 'real', 'KInt': 'int', 'KBool': 'bool'}.get(type(kind.elem).__name__, 'obj')
+        return newref(st, SymListV(n, lambda i, f=f: f(to_z3(i)), el, origin))
     raise ValueError('cannot create fresh %r' % kind)
